@@ -28,9 +28,10 @@ def lbits (ctx : Ctx) (env : Env) : Expr → List Loc
       (if pats.any (fun p => p.matchesSpec (denote ctx env test)) then lbits ctx env thn else lbits ctx env els)
   | _ => []
 
-/-- `v` with bit `b` replaced by `x` -/
+/-- `v` with bit `b` replaced by `x`: clear the bit, then set it to `x` (two's complement, so this
+also works on negative values) -/
 def setBit (v : Int) (b : Nat) (x : Bool) : Int :=
-  v - (if ibit v b then 2 ^ b else 0) + (if x then 2 ^ b else 0)
+  pyOr (pyAnd v (pyNot (2 ^ b))) (if x then 2 ^ b else 0)
 
 def Env.set (env : Env) (i : Nat) (v : Int) : Env := List.set env i v
 
